@@ -110,6 +110,7 @@ class SolverCtx(object):
         self.checks = 0
         self.time = 0.0
         self.unknown = 0
+        self.deadline = None
 
     def _sync(self, pc):
         st = self.stack
@@ -127,6 +128,8 @@ class SolverCtx(object):
 
     def check(self, pc, extra=None):
         """'sat' | 'unsat' | 'unknown' for pc (+ extra)."""
+        if self.deadline is not None and time.time() > self.deadline:
+            raise EngineError('time budget exceeded inside the solver loop')
         self._sync(pc)
         t = time.time()
         self.checks += 1
@@ -177,6 +180,7 @@ class Engine(object):
         self.div_witness = False
         self.resolve_bools = False
         self.fresh_tag = ''
+        self.deadline = None      # wall-clock time after which exploration stops with EngineError
         self._cur_state = None
 
     # ------------------------------------------------------------------
@@ -243,6 +247,9 @@ class Engine(object):
         leaves = []
         while work:
             st = work.pop()
+            if self.deadline is not None and time.time() > self.deadline:
+                raise EngineError('time budget exceeded (%d paths finished, %d pending)' % (
+                    self.stats['paths'], len(work) + 1))
             try:
                 self._run_state(st)
             except _Fork as fk:
